@@ -18,6 +18,8 @@ CONSTANTS ESources,   \* set of start sources
           OpKinds,    \* subset of the operation kinds to explore
           NewNames,   \* names for Rename
           NewStrings, \* strings for SetString / plain-string material
+          TextTargets, \* BOOLEAN: text leaves (reached through parent.all) are edit targets too
+          RenameItems, \* BOOLEAN: \item may be renamed
           Material    \* set of material lists: each a Seq of [m |-> "str", s |-> Seq(Char)] / [m |-> "node", k |-> snippet number]
 
 VARIABLES doc, nextId, hist, estage
@@ -78,13 +80,26 @@ PathOf(id) == IF id = 0-1 THEN <<>> ELSE PathSeq(doc, id, 0, 0, 1)
 
 Root == RootNode(doc)
 (* nodes that can be reached as TexNode wrappers: everything in bodies and in the bodies of argument groups *)
-Targets == SelectSeq(Descendants(Root), NotText)
-TargetIds == {Targets[i].pos : i \in 1..Len(Targets)}
 SupportsContents(x) == x.k \in {"env", "math", "group"} \/ (x.k = "cmd" /\ x.name = ItemWord)
+Targets == SelectSeq(Descendants(Root), NotText)
+AllTargetIds == {Targets[i].pos : i \in 1..Len(Targets)}
+(* a command whose name is no longer "item" keeps printing its body but refuses content edits: nodes directly in such a *)
+(* body cannot be deleted / replaced through the API (named deviation Dev_FrozenItemBody)                              *)
+FrozenHosts == {i \in 1..Len(Targets) : Targets[i].k = "cmd" /\ Targets[i].name # ItemWord /\ Targets[i].body # <<>>}
+FrozenIds == UNION {{Targets[i].body[j].pos : j \in 1..Len(Targets[i].body)} : i \in FrozenHosts}
+NodeTargetIds == AllTargetIds \ FrozenIds
+(* text leaves are reachable as nodes through parent.all, which works where no argument of the parent holds text *)
+AllWorks(p) == \A j \in 1..Len(p.args) : p.args[j].k = "text" \/ \A i \in 1..Len(p.args[j].body) : p.args[j].body[i].k # "text"
+TextHosts == << Root >> \o SelectSeq(Targets, LAMBDA x : SupportsContents(x) /\ AllWorks(x))
+TextTargetIds == IF TextTargets
+                 THEN UNION {{TextHosts[i].body[j].pos : j \in {m \in 1..Len(TextHosts[i].body) : TextHosts[i].body[m].k = "text" /\ TextHosts[i].body[m].kind \notin {"Raw", "str"}}} : i \in 1..Len(TextHosts)}
+                 ELSE {}
+TargetIds == NodeTargetIds \cup TextTargetIds
 ParentIds == {0-1} \cup {Targets[i].pos : i \in {j \in 1..Len(Targets) : SupportsContents(Targets[j])}}
+ReplaceHosts == ParentIds \cup {Targets[i].pos : i \in {j \in 1..Len(Targets) : Targets[j].k = "cmd" /\ Targets[j].body = <<>>}}
 BodyOf(pid) == IF pid = 0-1 THEN doc ELSE GetSeq(doc, pid).body
 WithBody(pid, b) == IF pid = 0-1 THEN b ELSE Update(pid, [GetSeq(doc, pid) EXCEPT !.body = b])
-Renamable(x) == x.k \in {"cmd", "env"} /\ x.name # ItemWord
+Renamable(x) == x.k \in {"cmd", "env"} /\ (RenameItems \/ x.name # ItemWord)
 GroupArgs(x) == \A j \in 1..Len(x.args) : x.args[j].k = "group"
 StringCmd(x) == x.k = "cmd" /\ Len(x.args) = 1 /\ x.args[1].k = "group"
 StringEnv(x) == x.k \in {"env", "math", "group"} /\ x.args = <<>> /\ Len(x.body) = 1 /\ x.body[1].k = "text" /\ ~IsWsText(x.body[1])
@@ -95,7 +110,8 @@ FreshGroup(kind, s, id) == Node("group", <<>>, kind, <<>>, <<>>, << Tx(s, id+1) 
 (* Observables of the model after a step                                   *)
 (***************************************************************************)
 ObsNames == {<<"a">>, <<"n">>, <<"q">>, <<"w">>, <<"z","z">>, <<"i","t","e","m">>, <<"e">>, <<"k","k","*">>}
-ObsNameSeq == << <<"a">>, <<"n">>, <<"q">>, <<"w">>, <<"z","z">>, <<"i","t","e","m">>, <<"e">>, <<"k","k","*">> >>
+ObsNameSeq == << <<"a">>, <<"n">>, <<"q">>, <<"w">>, <<"z","z">>, <<"i","t","e","m">>, <<"e">>, <<"k","k","*">>,
+                BeginOf(<<"e">>), BeginOf(<<"z","z">>), EndOf(<<"z","z">>), EndOf(<<"e">>), BeginOf(<<"i","t","e","m","i","z","e">>) >>
 ObsOf(d) == LET r == RootNode(d) IN
             [t |-> StrSeq(d),
              cnt |-> [i \in 1..Len(ObsNameSeq) |-> Count(r, ObsNameSeq[i])],
@@ -127,7 +143,7 @@ ReplaceWith == "replace_with" \in OpKinds /\ \E id \in TargetIds : \E ms \in Mat
 ChildrenOfP(pid) == LET p == IF pid = 0-1 THEN Root ELSE GetSeq(doc, pid) IN
                     {x.pos : x \in {All(p)[i] : i \in {j \in 1..Len(All(p)) : All(p)[j].k # "text"}}}
 BodyChildren(pid) == {BodyOf(pid)[i].pos : i \in {j \in 1..Len(BodyOf(pid)) : BodyOf(pid)[j].k # "text"}}
-Replace == "replace" \in OpKinds /\ \E pid \in ParentIds \cup TargetIds : \E cid \in ChildrenOfP(pid) : \E ms \in Material :
+Replace == "replace" \in OpKinds /\ \E pid \in ReplaceHosts : \E cid \in ChildrenOfP(pid) : \E ms \in Material :
             Step(Op("replace", cid, pid, 0, <<>>, <<>>, ms), SubstSeq(doc, cid, Mat(ms, nextId)), SnippetSize * Len(ms))
 Remove == "remove" \in OpKinds /\ \E pid \in ParentIds : \E cid \in BodyChildren(pid) :
             Step(Op("remove", cid, pid, 0, <<>>, <<>>, NoMs), SubstSeq(doc, cid, <<>>), 0)
@@ -137,17 +153,17 @@ InsertNeg == "insert" \in OpKinds /\ \E pid \in ParentIds : \E i \in {0-1, 0-2} 
             Step(Op("insert", 0-1, pid, i, <<>>, <<>>, ms), WithBody(pid, InsertAt(BodyOf(pid), i, Mat(ms, nextId))), SnippetSize)
 AppendOp == "append" \in OpKinds /\ \E pid \in ParentIds : \E ms \in Material :
             Step(Op("append", 0-1, pid, 0, <<>>, <<>>, ms), WithBody(pid, BodyOf(pid) \o Mat(ms, nextId)), SnippetSize * Len(ms))
-Rename == "rename" \in OpKinds /\ \E id \in TargetIds : \E nm \in NewNames :
+Rename == "rename" \in OpKinds /\ \E id \in AllTargetIds : \E nm \in NewNames :
             /\ Renamable(GetSeq(doc, id))
             /\ Step(Op("rename", id, 0-1, 0, nm, <<>>, NoMs), Update(id, [GetSeq(doc, id) EXCEPT !.name = nm]), 0)
-SetString == "set_string" \in OpKinds /\ \E id \in TargetIds : \E s \in NewStrings :
+SetString == "set_string" \in OpKinds /\ \E id \in NodeTargetIds : \E s \in NewStrings :
             LET x == GetSeq(doc, id) IN
             /\ (StringCmd(x) \/ StringEnv(x))
             /\ Step(Op("set_string", id, 0-1, 0, <<>>, s, NoMs),
                     IF StringCmd(x) THEN Update(id, [x EXCEPT !.args = << [x.args[1] EXCEPT !.body = << Tx(s, nextId) >>] >>])
                     ELSE Update(id, [x EXCEPT !.body = << Tx(s, nextId) >>]), 1)
-ArgsOps == {"args_append", "args_pop", "args_reverse", "args_slice", "args_insert", "args_remove", "args_clear"} \cap OpKinds
-ArgsEdit == \E k \in ArgsOps : \E id \in TargetIds :
+ArgsOps == {"args_swap", "args_del", "args_append", "args_pop", "args_reverse", "args_slice", "args_insert", "args_remove", "args_clear"} \cap OpKinds
+ArgsEdit == \E k \in ArgsOps : \E id \in NodeTargetIds :
             LET x == GetSeq(doc, id)
                 na == Len(x.args) IN
             /\ HasArgs(x)
@@ -166,6 +182,12 @@ ArgsEdit == \E k \in ArgsOps : \E id \in TargetIds :
                        Step(Op(k, id, 0-1, j, <<>>, <<>>, NoMs), Update(id, [x EXCEPT !.args = SubSeq(x.args, 1, f-1) \o SubSeq(x.args, f+1, na)]), 0)
                \/ /\ k = "args_reverse" /\ na > 1
                   /\ Step(Op(k, id, 0-1, 0, <<>>, <<>>, NoMs), Update(id, [x EXCEPT !.args = [j \in 1..na |-> x.args[na + 1 - j]]]), 0)
+               \/ /\ k = "args_swap" /\ na > 1       \* args[0], args[j] = args[j], args[0]
+                  /\ \E j \in 1..(na-1) :
+                       Step(Op(k, id, 0-1, j, <<>>, <<>>, NoMs), Update(id, [x EXCEPT !.args = [m \in 1..na |-> IF m = 1 THEN x.args[j+1] ELSE IF m = j+1 THEN x.args[1] ELSE x.args[m]]]), 0)
+               \/ /\ k = "args_del" /\ na > 0        \* del args[j]
+                  /\ \E j \in 0..(na-1) :
+                       Step(Op(k, id, 0-1, j, <<>>, <<>>, NoMs), Update(id, [x EXCEPT !.args = SubSeq(x.args, 1, j) \o SubSeq(x.args, j+2, na)]), 0)
                \/ /\ k = "args_clear" /\ na > 0
                   /\ Step(Op(k, id, 0-1, 0, <<>>, <<>>, NoMs), Update(id, [x EXCEPT !.args = <<>>]), 0)
                \/ /\ k = "args_slice" /\ na > 0
